@@ -38,6 +38,8 @@ class cvs_syncer(base.VcsSyncer):
                 proto[0] = cls.require_binary(proto[0])
             except base.MissingBinary:
                 raise base.UriError(raw_uri, f"missing rsh binary: {proto[0]!r}")
+        if len(proto) != 2:
+            raise base.UriError(raw_uri, "cvs+${RSH} must be followed by ://host:module")
         return proto[0], proto[1].lstrip("/")
 
     def __init__(self, basedir, raw_uri, **kwargs):
